@@ -223,7 +223,16 @@ def _worker(args):
             reqs = prop.gen(rng, tier, shard, batch)
             if not reqs:
                 break
-            reqs = list(reqs) + ["counts"]
+            reqs = list(reqs)
+            if getattr(prop, "MODE_INDEPENDENT", False):
+                # the result must not depend on the thread's rounding mode: run one half of the batch under
+                # RoundHalfEven and the other half under another mode (rotating over shards and batches)
+                other = O.MODES[(shard + batch * 3) % 8]
+                if other == O.DEFAULT_MODE:
+                    other = "RoundUp"
+                h = len(reqs) // 2
+                reqs = reqs[:h] + ["mode " + other] + reqs[h:] + ["mode " + O.DEFAULT_MODE]
+            reqs = reqs + ["counts"]
             reqfile = os.path.join(wdir, "s%d.req" % shard)
             with open(reqfile, "w") as f:
                 f.write("\n".join(reqs))
